@@ -7,15 +7,16 @@
      grabFromCentralStore: try_dequeue_bulk(ideal); if empty: fetch_add(1) on backingStoreLock; enter iff the old value was 0:
         push_back the new slab, enqueue its first pm-ideal chunks, store(0), keep the last ideal chunks; otherwise spin until the
         word reads 0 and retry;
-     bytesAllocated: allocId = 0; while (!lock.compare_exchange_weak(allocId, 1)) {}  -- a FAILED compare-exchange writes the
-        observed value into allocId and the loop does NOT reset it; size(); store(0);
+     bytesAllocated: allocId = 0; while (!lock.compare_exchange_weak(allocId, 1)) { allocId = 0; }  -- a failed
+        compare-exchange writes the observed value into allocId; the loop body resets it (the repair of the former defect
+        "retry with the stale observed value", fix commit in /repo); size(); store(0);
      alloc / dealloc on the thread-local cache (tlBuffers[0..tlCount)), recycle of the upper half at kMaxNumTLBuffers,
      thread exit: PerThreadQueuingData::~PerThreadQueuingData enqueues the whole cache (only if the thread registered).
    The central store is an abstract concurrent queue (Section variables; two implementations below); its operations are atomic
    steps (moodycamel::ConcurrentQueue is trusted to be linearizable).  Blocks are identified as slab * pm + index; a slab's
    identity is its position in backingStore.  std::vector operations are atomic steps here: what a data race on the vector does
    in C++ (undefined behaviour) is outside the model -- that is why critical-section occupancy is tracked (maxocc).
-   A spurious failure of compare_exchange_weak leaves allocId = the observed value = the expected value and is a stutter step;
+   A spurious failure of compare_exchange_weak is followed by allocId = 0 like any other failure and is a stutter step;
    it adds no reachable state and is not modelled. *)
 From Coq Require Import ZArith List Bool.
 From DV Require Import Base.MachInt Base.Sched.
@@ -34,7 +35,7 @@ Inductive pc :=
 | PGrabEnq (slab : Z)          (* queue.enqueue_bulk(topush, kNumToPush) -- inside *)
 | PGrabStore (slab : Z)        (* lock.store(0)                          -- leaves *)
 | PRecycle                     (* recycleToCentralStore: enqueue_bulk(tlBuffers + ideal, ideal) *)
-| PBytesCas (a : Z)            (* lock.compare_exchange_weak(allocId = a, 1) *)
+| PBytesCas (a : Z)            (* lock.compare_exchange_weak(allocId = a, 1); on failure allocId = 0 *)
 | PBytesSize                   (* backingStore.size()                    -- inside *)
 | PBytesStore (v : Z)          (* lock.store(0)                          -- leaves *)
 | PExitFlush.                  (* ~PerThreadQueuingData: enqueue_bulk(buffers_, count_) *)
@@ -167,7 +168,7 @@ Section SB.
         | POp OBytes => same (goto th (PBytesCas 0)) s_op
         | PBytesCas a =>
             if lock s =? a then Some (mk 1 (backing s) (central s) (user s) (maxocc s) (upd (goto th PBytesSize)), ch, s_bytes_cas)
-            else same (goto th (PBytesCas (lock s))) s_bytes_cas
+            else same (goto th (PBytesCas 0)) s_bytes_cas
         | PBytesSize => same (goto th (PBytesStore (mbytes c * Z.of_nat (length (backing s))))) s_bytes_size
         | PBytesStore v => Some (mk 0 (backing s) (central s) (user s) (maxocc s) (upd (next (logr th r_bytes v))), ch, s_bytes_store)
         | POp OExit => same (if reg th then goto th PExitFlush else next th) s_op
